@@ -120,6 +120,14 @@ def as_other_iterable(objs, which):
         return iter(objs)
     if which == "reversed-twice":
         return reversed(list(reversed(objs)))
+    if which == "lazy-fresh":
+        # operands made on the fly: every `~m` wrapper is created when the consumer asks for the next item and is garbage
+        # as soon as the consumer moves on
+        from rv.modules.module import DisconnectingModule
+        return (~(~o) if isinstance(o, DisconnectingModule) else o for o in objs)
+    if which == "map-fresh":
+        from rv.modules.module import DisconnectingModule
+        return map(lambda o: ~o.orig if isinstance(o, DisconnectingModule) else ~~o, objs)
     return objs
 
 
@@ -137,7 +145,7 @@ def apply_real(p, foreign, F, T, api_form):
         return "lshift"
     f_ops, t_ops = resolve(p, foreign, F), resolve(p, foreign, T)
     _SPELL[1] += 1
-    which = ("list", "tuple", "generator", "iter", "reversed-twice")[_SPELL[1] % 5]
+    which = ("list", "tuple", "generator", "iter", "reversed-twice", "lazy-fresh", "map-fresh")[_SPELL[1] % 7]
     if which != "list":
         if isinstance(t_ops, list) and not isinstance(f_ops, list):
             t_ops = as_other_iterable(t_ops, which)         # one source, the destinations as any iterable
@@ -229,6 +237,9 @@ def make_foreign(k=2):
     q = api.Project()
     out = [q.new_module(api.m.Amplifier) for _ in range(k - 1)]
     out.append(api.m.Amplifier())  # unattached module (parent None) is not in this project either
+    # ... nor is another project's Output, be it a top-level project's or the one inside a MetaModule
+    out.append(q.output)
+    out.append(api.m.MetaModule().project.output)
     for m in out:
         _FOREIGN_PARENT[id(m)] = m.parent
     return out
